@@ -17,6 +17,7 @@ COMM = [None, lambda q, p: abs(q) * 0.01, lambda q, p: max(1.0, abs(q) * p * 0.0
 def finite_frame(x):
     v = np.asarray(pd.DataFrame(x).to_numpy(dtype=float))
     return bool(np.all(np.isfinite(v) | np.isnan(v))) and not np.any(np.isinf(v))
+rs2 = np.random.RandomState(SEED + 77)      # separate stream: the draws above keep their values
 for it in range(N):
     k = (rs.randint(len(SCHED)), rs.randint(len(SEL)), rs.randint(len(WGT)), rs.randint(len(COMM)), bool(rs.randint(2)), bool(rs.randint(2)), int(rs.randint(4)))
     mult = [1, 1, 10, 0.25][k[6]]
@@ -32,7 +33,9 @@ for it in range(N):
     random_state = rs.randint(1 << 30)
     import random; random.seed(random_state); np.random.seed(random_state % (1 << 31))
     try:
-        t = bt.Backtest(s, data, integer_positions=k[4], commissions=COMM[k[3]], initial_capital=float(10 ** rs.randint(3, 7)))
+        # spreads quoted for some of the tickers only (the others trade without one), on the dates of the data
+        add = {"bidoffer": pd.DataFrame(rs2.uniform(0.0, 0.2, size=(len(data), 2)), index=data.index, columns=["a", "c"]), "note": pd.Series(1.0, index=data.index)} if rs2.rand() < 0.4 else None
+        t = bt.Backtest(s, data, integer_positions=k[4], commissions=COMM[k[3]], initial_capital=float(10 ** rs.randint(3, 7)), additional_data=add)
         res = bt.run(t)
         outs = [t.strategy.prices, t.strategy.values, t.weights, t.security_weights, t.positions, t.herfindahl_index, t.turnover, res.prices, t.strategy.outlays, res.get_weights(), res.get_security_weights()]
         outs.append(res.get_transactions())
